@@ -120,6 +120,8 @@ def run(ctx: Any, prog: Program) -> None:
                 callers = [(cn2, cf) for cn2, cf in methods.items() if cn2 != name and any(isinstance(c, ast.Call) and dotted(c.func) == f'self.{name}' for c in walk_no_nested(cf))]
                 all_guarded = bool(callers)
                 for cn2, cf in callers:
+                    if cn2 in exempt:
+                        continue            # a piece of load_dirfile / the constructor moved into a helper: covered by the caller's exemption (and by Z17 for the mode)
                     g2 = build_cfg(cf, lambda s_: False)
                     guards2 = {nd.id for nd in g2.nodes if nd.stmt is not None and ((nd.kind == 'stmt' and '_check_writable()' in U(nd.stmt)) or (nd.kind == 'test' and 'writable' in U(nd.stmt)))}
                     calls2 = {nd.id for nd in g2.nodes if nd.stmt is not None and nd.kind in ('stmt', 'with', 'return') and f'self.{name}(' in U(nd.stmt)}
